@@ -181,3 +181,48 @@ Theorem C05_cursor_level_any_interleaving : forall D has_ns hc rm rn rr F q,
   (s0, solo D has_ns hc rm rn rr F q s0 (turns false sched) t1, solo D has_ns hc rm rn rr F q s0 (turns true sched) t2).
 Proof. exact interleaving_independent3. Qed.
 Print Assumptions C05_cursor_level_any_interleaving.
+
+(* ... for ANY number of threads (Proofs/ConcRefineN.v), against Api.select / Api.evaluate
+   (Proofs/ApiConc3.v: every goroutine that gets enough turns observes the list-level answer, with
+   partial consumption), and FROM THE TEXT (Proofs/BuildWellFormed.v: the well-formedness
+   hypothesis holds for every typed text that compiles; `text_typed` is a boolean computed from the
+   parse tree — the builder itself does no type checking: `count(a)/b`, `1|2` compile) *)
+From XP.Proofs Require Import IterRefine4 ApiRefine3 ConcRefineN ApiConc3 BuildWellFormed.
+
+Theorem C05_cursor_level_any_number_of_threads : forall D has_ns hc rm rn rr F q,
+  frame_wf q = true ->
+  forall (sched : list nat) (s0 : state3 q) (pool : list (thread q)),
+  Forall (TInv q s0) pool ->
+  fst (run_schedN D has_ns hc rm rn rr F q sched s0 pool) = s0 /\
+  List.length (snd (run_schedN D has_ns hc rm rn rr F q sched s0 pool)) = List.length pool /\
+  forall i t, nth_error pool i = Some t ->
+    nth_error (snd (run_schedN D has_ns hc rm rn rr F q sched s0 pool)) i =
+    Some (solo D has_ns hc rm rn rr F q s0 (turnsN i sched) t).
+Proof. exact interleaving_independentN. Qed.
+Print Assumptions C05_cursor_level_any_number_of_threads.
+
+Theorem C05_cursor_level_goroutines_get_list_level_answers : forall rm rn rr hcode D has_ns q,
+  m1_supported4 q = true -> frame_wf q = true ->
+  forall ops : list aop,
+  exists F0, forall F, F0 <= F -> forall (sched : list nat) (s0 : state3 q),
+    let res := grun (astep rm rn rr hcode D has_ns F q) sched s0 (map (APending q) ops) in
+    fst res = s0 /\
+    forall i o ob, nth_error ops i = Some o ->
+      expected rm rn rr hcode q (op_of D has_ns q o) = Some ob ->
+      steps_needed o <= turnsN i sched -> nth_error (snd res) i = Some (ADone q ob).
+Proof. exact api_calls_any_schedule3. Qed.
+Print Assumptions C05_cursor_level_goroutines_get_list_level_answers.
+
+Theorem C05_text_compiled_tree_is_well_formed : forall re_ok (strict : bool) text ns q,
+  compile re_ok text ns = Ok q -> text_typed strict text ns = true -> frame_wf q = true.
+Proof. exact compile_frame_wf. Qed.
+Print Assumptions C05_text_compiled_tree_is_well_formed.
+
+Theorem C05_text_interleaving : forall re_ok D has_ns hc rm rn rr F text ns q,
+  compile re_ok text ns = Ok q -> forall strict : bool, text_typed strict text ns = true ->
+  forall (sched : list bool) (s0 : state3 q) (t1 t2 : thread q),
+  TInv q s0 t1 -> TInv q s0 t2 ->
+  run_sched D has_ns hc rm rn rr F q sched s0 t1 t2 =
+  (s0, solo D has_ns hc rm rn rr F q s0 (turns false sched) t1, solo D has_ns hc rm rn rr F q s0 (turns true sched) t2).
+Proof. exact C05_text_cursor_interleaving. Qed.
+Print Assumptions C05_text_interleaving.
